@@ -902,7 +902,7 @@ class EditableParentImpl(BaseParentImpl):
                                          io_args=dargs)
 
         try:
-            self.set_attr(name, result)
+            self._set_spec_ref(name, result)
         except (ValueError, KeyError, AttributeError):
             self.system.iomanager.del_spec(result)
             raise KeyError("cannot assign '%s'" % name)
@@ -920,7 +920,7 @@ class EditableParentImpl(BaseParentImpl):
             io_args={"file_type": file_type}
         )
         try:
-            self.set_attr(name, data)
+            self._set_spec_ref(name, data)
         except (ValueError, KeyError, AttributeError):
             self.system.iomanager.del_spec(spec)
             raise KeyError("cannot assign '%s'" % name)
@@ -940,12 +940,19 @@ class EditableParentImpl(BaseParentImpl):
         )
 
         try:
-            self.set_attr(name, spec.value)
+            self._set_spec_ref(name, spec.value)
         except (ValueError, KeyError, AttributeError):
             self.system.iomanager.del_spec(spec)
             raise KeyError("cannot assign '%s'" % name)
 
         return spec.value
+
+    def _set_spec_ref(self, name, value):
+        """Bind the value of a new IOSpec to ``name``: always a Reference"""
+        if name in getattr(self, "cells", ()):
+            # set_attr would store the value in a scalar Cells
+            raise AttributeError("'%s' is a Cells" % name)
+        self.set_attr(name, value)
 
     def set_attr(self, name, value, refmode):
         raise NotImplementedError
